@@ -258,7 +258,7 @@ def synthetic_record():
         else:
             break
     ph, pl = H.limbs_of_array(P)
-    return dict(id=899999, kind="hdc", exc="", warned=False, shape=[4, 5], calls=1, aq=H.l2(H.alpha_q("0.1")),
+    return dict(id=899999, kind="hdc", exc="", warned=False, freshsame=True, shape=[4, 5], calls=1, aq=H.l2(H.alpha_q("0.1")),
                 limq=H.l2(H.q18(limit)), Ph=ph, Pl=pl, Fh=list(ph), Fl=list(pl), R=R, lastq=H.l2(H.q18(last)),
                 fmq=H.l2(H.q18(last)), cmp=[(1 if v > last else (0 if v == last else -1)) for v in P],
                 fr=[sorted(set(P)).index(v) for v in P])
@@ -293,6 +293,7 @@ def self_test(ctx):
     fr_bad = list(base["fr"])
     fr_bad[outs[0]] = max(fr_bad) + 1
     var("DensityOrder", fr=fr_bad)
+    var("EqualsFreshModel", freshsame=False)
     var("Threshold", lastq=H.l2(base["lastq"][0] * H.B9 + base["lastq"][1] + 1))
     var("FmIsDensity", fmq=H.l2(2 * (base["fmq"][0] * H.B9 + base["fmq"][1])))
     # fm one ulp above the least dense enclosed cell: that cell compares as "below fm"
@@ -345,7 +346,9 @@ def run(ctx):
         "grids (limits as python int / np.int64, cell sizes as int, list of ints, int on some axes and float on "
         "others, 2-D and 3-D) judged against the harness's float reference.  Hidden state: 8 (quick) / 40 (thorough) pairs of look-alike models - same structure, "
         "families, fixed parameters, dependence functions as parameter-less closures with different constants - run "
-        "A, B, A on one grid, and the cheap ordinary contours a second time in reverse order.  distinct = distinct (model structure+parameters, alpha, limits, deltas); non-trivial = no "
+        "A, B, A on one grid; 10 / 60 model histories (contour, in-place change of the model object - attribute, "
+        "dependence parameter, distribution.fit, dependence re-fit, replaced distribution - contour on the same grid "
+        "with the same or another alpha, judged against the current model and compared with a freshly built one); the cheap ordinary contours a second time in reverse order.  distinct = distinct (model structure+parameters, alpha, limits, deltas); non-trivial = no "
         "exception, not on the warn path, at least 4 cells enclosed and at least one cell excluded")
     ctx.trusted = [
         "TLC 1.8 evaluating spec/HDCOps.tla two-limb arithmetic and spec/Trace_C02.tla clauses",
@@ -377,6 +380,11 @@ def run(ctx):
                                                      "MC_HDC_key_thorough.cfg")):
         ctx.model_check("HDC", cfg, must_cover=("Sort", "Select", "Warn"), timeout=3000)
     ctx.model_check("HDC", "MC_HDC_mut_rankbyarray.cfg", expect_violation="DensityOrder")
+    # histories of one model object: the densities belong to the model at the time of the call; densities kept
+    # from the previous contour on the grid (discarded only by model.fit) must violate
+    ctx.model_check("HDCCache", "MC_HDCCache.cfg", must_cover=("Contour", "ChangeInPlace", "ModelFit"))
+    ctx.model_check("HDCCache", "MC_HDCCache_mut_reuse.cfg", expect_violation="UsesCurrentModel")
+    ctx.model_check("HDCCache", "MC_HDCCache_mut_reuse_region.cfg", expect_violation="RegionOfCurrentModel")
     ctx.model_check("HDC", "MC_HDC_mut_strict.cfg", expect_violation="Tight")
     ctx.model_check("HDC", "MC_HDC_mut_close.cfg", expect_violation="WarnIff")
     ctx.model_check("HDC", "MC_HDC_naive.cfg", expect_violation="NaiveEq")
@@ -407,6 +415,12 @@ def run(ctx):
     again = [c for c, r, i in reversed(kept) if not r["exc"] and i["n"] <= 6000][: ctx.pick(40, 300)]
     judge(ctx, vc, again, "second evaluation in reverse order", base_id=250000, key_suffix=" second-evaluation")
     ctx.notes["second_evaluations"] = len(again)
+    # model histories: contour, in-place change of the model object (attribute, dependence parameter,
+    # distribution.fit, dependence re-fit, replaced distribution), contour on the same grid
+    hist = H.history_cases(vc, np.random.default_rng(ctx.seed * 67 + 14), cfgs, ctx.pick(10, 60))
+    kept_h = judge(ctx, vc, hist, "contours of a model object changed in place after an earlier contour",
+                   base_id=270000)
+    ctx.notes["model_history_contours"] = len(kept_h)
     near = near_limit_cases(ctx, vc, cfgs)
     kept_near = judge(ctx, vc, near, "grids with total just below / above 1 - alpha", base_id=100000)
     ctx.notes["near_limit_contours"] = len(kept_near)
